@@ -13,9 +13,9 @@ LEVEL_TEXT = {
  "C02": "Row monitor over real runs: the user's rain record of the date plus the efficiency-adjusted application against reported infiltration + runoff, bounds on runoff, and negative infiltration only on the first day the ponding capacity falls below the pond.",
  "C03": "Row monitor over real runs: every compartment against the air-dry/saturation arrays captured at initialisation, ponding against the bund height the user configured (also in a second model built from the same objects), root-zone storage.",
  "C04": "Row monitor over real runs emphasising dense canopies, ponding, mulches and partial wetting: sign of all nine fluxes, actual <= potential, zeros out of season.",
- "C05": "Row monitor over real runs of all 37 crops against the season's own crop parameters (snapshot at the season's first step): canopy, rooting depth (water table, restrictive layers), harvest indices, degree days, finiteness.",
+ "C05": "Row monitor over real runs of all 37 crops against the envelope the user configured (catalogue + constructor arguments; the season's crop object must carry the same values), incl. a second model of the same crop with a narrower envelope in the same process: canopy, rooting depth (water table, restrictive layers), harvest indices, degree days, finiteness.",
  "C06": "Row + summary monitor over real runs: biomass gain ratio against WP*fCO2*Tr/ET0 with the user's ET0 by date, yield identities, and a one-to-one match of harvest events (observed by the step tap) with summary rows.",
- "C07": "Reference calendar (plain datetime arithmetic) replayed over the executed step sequence of real runs, incl. runs driven through random step compositions: order, dates, dap chain, season ends, jumps, termination, number of seasons.",
+ "C07": "Reference calendar (plain datetime arithmetic) replayed over the executed step sequence of real runs, incl. runs driven through random step compositions: order, dates, dap chain, season ends, jumps, termination, number of seasons, latest harvest dates (one month/day for all seasons, first such day after planting).",
  "C08": "Differential oracle over real runs: every season of a multi-season run (and season 0 after a fallow start) bit-identical to a fresh run started on that planting date; season-entry state diff as witness.",
  "C09": "Differential oracle: all 2^(n-1) step compositions of short windows (exhaustive for those windows) and random compositions of long ones reproduce the uninterrupted run and its completion status after every call, incl. getters read between calls and re-used model objects.",
  "C10": "Output digests of real runs compared across fresh interpreters (hash seeds), in-process histories (unrelated and near-identical predecessors) and pool workers; digest of process-global objects between models.",
@@ -25,9 +25,9 @@ LEVEL_TEXT = {
  "C14": "Logging ndarray on the weather matrix (every index read) plus differential runs: weather replaced from a cut day on, padded (with holes) outside the window, end date extended.",
  "C15": "Per-step binding check of the stored weather values against the user's record of that date, plus differential runs over transformed weather tables (all 120 column permutations in the thorough tier).",
  "C16": "Catalogue sweep of real runs under logical-time watchdogs; finiteness of every reported cell; only documented rejections accepted, and those only when an independent degree-day count justifies them. Thorough: the full 37x15x6 product.",
- "C17": "Runtime contracts on the real response functions over an exhaustive 37-crop lattice (parameters as initialised by the model), the CO2 factor through both code paths, and the same range contracts riding along in real simulations.",
+ "C17": "Runtime contracts on the real response functions over an exhaustive 37-crop lattice (parameters as initialised by the model), the CO2 factor through both code paths for the default and two user-supplied reference concentrations, and the same range contracts riding along in real simulations.",
  "C18": "Structural invariants of the live soil profile right after the real _initialize(), and an independent reference for layer assignment and initial water content, over built-in, custom and texture soils and all crop rooting depths.",
- "C19": "Row/ledger monitor over real runs with water tables (reference depth series by date, adjusted field capacity, saturation below the table, capillary-rise ceiling) plus far-table-vs-no-table differential runs.",
+ "C19": "Row/ledger monitor over real runs with water tables (reference depth series by date incl. observations outside the window and a second model given the same GroundWater object over a later window, adjusted field capacity, saturation below the table, capillary-rise ceiling) plus far-table-vs-no-table differential runs.",
  "C20": "Differential oracle over real runs: base configuration vs. twelve neutral transformations (in-season and fallow management, other strategies' parameters, neutral values, explicit default harvest date), alone and combined.",
 }
 NOTE = ("Exploration, not proof: nothing is claimed about configurations no run produced (the evidence lists factor counters, "
